@@ -5,8 +5,11 @@ import (
 	"flag"
 	"fmt"
 	"os"
+	"path/filepath"
+	"runtime"
 	"runtime/debug"
 	"sort"
+	"strconv"
 	"strings"
 
 	"verif/sa/eng"
@@ -77,6 +80,7 @@ func run(p *props.Prop, tier string, verbose bool, verifDir string) (code int) {
 	if tier == "thorough" {
 		configs = []string{"", "5BytesOffset"}
 	}
+	bases := map[string]*eng.Prog{}
 	for _, tags := range configs {
 		prog, err := eng.Load(tags, nil)
 		if err != nil {
@@ -85,6 +89,7 @@ func run(p *props.Prop, tier string, verbose bool, verifDir string) (code int) {
 			return 1
 		}
 		c.P = prog
+		bases[tags] = prog
 		name := tags
 		if name == "" {
 			name = "default"
@@ -93,8 +98,185 @@ func run(p *props.Prop, tier string, verbose bool, verifDir string) (code int) {
 		p.Run(c)
 		c.Note("config %s: %d packages, %d functions in SSA", name, len(prog.Pkgs), prog.NFuncs)
 	}
+	if tier == "thorough" && os.Getenv("VERIF_NO_MUTANTS") == "" {
+		mutationKill(p, c, configs, bases, verbose)
+	}
 	if verbose {
 		c.PrintAll()
 	}
 	return c.Finish(p.Explanation, p.Assumptions, p.Trusted)
+}
+
+// mutationKill is the second half of the thorough tier: it tests the rules of the property both
+// ways on the current tree. (a) every committed seeded change of this property (a realistic
+// breaking change produced without knowledge of the checker) is applied as an in-memory overlay
+// and must be reported; (b) single-edit mutants are derived inside the functions the rules
+// looked at, type-checked, and analysed: the kill rate and the survivors are recorded as
+// evidence of what the rules are sensitive to. Nothing is executed; /repo is not touched.
+// The outcome never changes the exit code: a surviving mutant is a statement about the checker,
+// not a violation of the property by the tree.
+func mutationKill(p *props.Prop, base *eng.Ctx, configs []string, bases map[string]*eng.Prog, verbose bool) {
+	baseline := base.Unresolved()
+	type verdict struct {
+		m        eng.Mutant
+		compiled bool
+		killed   bool
+		crashed  bool
+		reports  []string
+	}
+	analyse := func(m eng.Mutant) (v verdict) {
+		v.m = m
+		defer func() {
+			if r := recover(); r != nil {
+				v.crashed = true
+				v.killed = true // a real run fails on an analyser panic, too
+				v.reports = []string{fmt.Sprintf("analyser panic: %v", r)}
+			}
+		}()
+		c := eng.NewCtx(p.ID, "mutant", base.VerifD)
+		for _, tags := range configs {
+			prog, err := eng.LoadMutant(bases[tags], m.Overlay)
+			if err != nil {
+				if os.Getenv("WEEDLINT_DEBUG_MUTANT") != "" {
+					fmt.Printf("  mutant %s [%s]: %v\n", m.ID, tags, err)
+				}
+				continue // does not type-check under this configuration (or the file is not part of it)
+			}
+			v.compiled = true
+			c.P = prog
+			name := tags
+			if name == "" {
+				name = "default"
+			}
+			c.Config = append(c.Config, name)
+			p.Run(c)
+		}
+		if !v.compiled {
+			return v
+		}
+		for k := range c.Unresolved() {
+			if !baseline[k] {
+				v.killed = true
+				v.reports = append(v.reports, k)
+			}
+		}
+		sort.Strings(v.reports)
+		if len(v.reports) > 3 {
+			v.reports = v.reports[:3]
+		}
+		return v
+	}
+	runAll := func(ms []eng.Mutant) []verdict {
+		out := make([]verdict, len(ms))
+		sem := make(chan struct{}, parallelism())
+		done := make(chan int)
+		for i := range ms {
+			go func(i int) {
+				sem <- struct{}{}
+				out[i] = analyse(ms[i])
+				<-sem
+				done <- i
+			}(i)
+		}
+		for range ms {
+			<-done
+		}
+		return out
+	}
+
+	// (a) seeded changes
+	var seeds []eng.Mutant
+	var stale []string
+	dirs, _ := filepath.Glob(filepath.Join(base.VerifD, "seeded", p.ID+"_*"))
+	sort.Strings(dirs)
+	for _, d := range dirs {
+		id := filepath.Base(d)
+		m, ok, why := eng.SeededMutant(id, filepath.Join(d, "patch.diff"))
+		if !ok {
+			stale = append(stale, id+": "+why)
+			continue
+		}
+		seeds = append(seeds, m)
+	}
+	sv := runAll(seeds)
+	var seedKilled, seedMissed []string
+	var seedSamples []interface{}
+	for _, v := range sv {
+		if !v.compiled && !v.crashed {
+			stale = append(stale, v.m.ID+": does not type-check on this tree")
+			continue
+		}
+		if v.killed {
+			seedKilled = append(seedKilled, v.m.ID)
+		} else {
+			seedMissed = append(seedMissed, v.m.ID)
+			fmt.Printf("CHECKER-WEAKNESS property=%s seeded change %s (%s) is not reported by the rules\n", p.ID, v.m.ID, v.m.Where)
+		}
+		seedSamples = append(seedSamples, map[string]interface{}{"seed": v.m.ID, "files": v.m.Where, "reported": v.killed, "first_reports": v.reports})
+	}
+
+	// (b) derived single-edit mutants inside the analysed functions
+	all := eng.AutoMutants(base.TouchedSpans())
+	limit := 48
+	if n, err := strconv.Atoi(os.Getenv("VERIF_MUTANTS")); err == nil && n >= 0 {
+		limit = n
+	}
+	sample := eng.Sample(all, limit, 0)
+	av := runAll(sample)
+	compiled, killed := 0, 0
+	byKind := map[string][2]int{}
+	var survivors, killedSamples []interface{}
+	for _, v := range av {
+		if !v.compiled && !v.crashed {
+			continue
+		}
+		compiled++
+		k := byKind[v.m.Kind]
+		k[0]++
+		if v.killed {
+			killed++
+			k[1]++
+			if len(killedSamples) < 8 {
+				killedSamples = append(killedSamples, map[string]interface{}{"mutant": v.m.ID, "edit": v.m.Desc, "reported_as": v.reports})
+			}
+		} else {
+			survivors = append(survivors, map[string]interface{}{"mutant": v.m.ID, "edit": v.m.Desc})
+			if verbose {
+				fmt.Printf("  survived  %s  %s\n", v.m.ID, v.m.Desc)
+			}
+		}
+		byKind[v.m.Kind] = k
+	}
+	kinds := map[string]string{}
+	for k, v := range byKind {
+		kinds[k] = fmt.Sprintf("%d/%d killed", v[1], v[0])
+	}
+	base.Mutation = map[string]interface{}{
+		"mutation_rule": "thorough tier, second half: the rules are run on changed copies of the source supplied as go/packages overlays (type-checked, never executed, tree untouched). seeded = the committed seeded changes of this property (realistic breaking changes written without knowledge of the rules); derived = single-edit mutants (negated condition, flipped comparison/connective, dropped call/defer/field store, constant+1, break<->continue) inside the functions the rules analysed, sampled evenly and deterministically. A mutant counts as killed when the rules report an obligation they do not report on the unchanged tree. Survivors do not change the verdict: many single edits do not break the property (equivalent or irrelevant mutants), and the rules decide named structural clauses, not the whole behaviour.",
+		"seeded_changes": map[string]interface{}{
+			"applied": len(seeds), "reported": len(seedKilled), "not_reported": seedMissed, "stale": stale, "samples": seedSamples,
+		},
+		"derived_mutants": map[string]interface{}{
+			"generated": len(all), "analysed": len(sample), "type_checked": compiled, "killed": killed, "by_kind": kinds,
+			"killed_samples": killedSamples, "survivors": survivors,
+		},
+		"evaluations":         len(seeds) + compiled,
+		"distinct_nontrivial": len(seedKilled) + killed,
+	}
+	fmt.Printf("mutation-kill property=%s seeded: %d/%d reported (%d stale); derived: %d generated, %d analysed, %d type-check, %d killed\n",
+		p.ID, len(seedKilled), len(seeds), len(stale), len(all), len(sample), compiled, killed)
+}
+
+func parallelism() int {
+	if n, err := strconv.Atoi(os.Getenv("VERIF_PAR")); err == nil && n > 0 {
+		return n
+	}
+	n := runtime.NumCPU() / 2
+	if n < 1 {
+		n = 1
+	}
+	if n > 8 {
+		n = 8
+	}
+	return n
 }
